@@ -32,8 +32,9 @@ def check(case: Dict[str, Any]) -> CaseInfo:
         nodes = g.node_list
         bd = hta_call("get_critical_path_breakdown", lambda: g.get_critical_path_breakdown())
         require(bd is not None, "breakdown:returned", "None")
-        crit = list(g.critical_path_edges_set)
         path = [int(n) for n in g.critical_path_nodes]
+        # the critical edges = the edges between consecutive path nodes (derived here, not read from the graph's own set)
+        crit = [g.edges[u, v]["object"] for u, v in zip(path, path[1:])]
         wmap = {(u, v): float(wt) for u, v, _, wt in edge_objects(g)}
         path_weight = sum(wmap[(u, v)] for u, v in zip(path, path[1:]))
         require(len(bd) == len(crit), "breakdown:one_row_per_critical_edge", lambda: f"{len(bd)} rows vs {len(crit)} edges")
